@@ -593,3 +593,98 @@ func Snow3GLfsrStep(lfsr [16]uint32, init bool, f uint32) [16]uint32 {
 	s.clockLFSR(f)
 	return s.S
 }
+
+// ---------------------------------------------------------------------------------------------
+// Model-directed inputs for ZUC: the one data-dependent branch of the LFSR is the feedback sum that is a
+// multiple of 2^31-1 (the standard stores it as 2^31-1, never as 0). For random keys this happens with
+// probability 2^-31 per clock, so no alphabet of keys reaches it; the functions below invert the model's
+// first initialisation rounds instead.
+
+// ZucInitZeroRounds returns the initialisation rounds (1..32) in which the new cell is the representative
+// 2^31-1 of zero.
+func ZucInitZeroRounds(k, iv []byte) []int {
+	z := &Zuc{}
+	for i := 0; i < 16; i++ {
+		z.S[i] = uint32(k[i])<<23 | ZucD[i]<<8 | uint32(iv[i])
+	}
+	var out []int
+	for i := 1; i <= 32; i++ {
+		z.br()
+		w := z.f()
+		z.lfsr(w>>1, true)
+		if z.S[15] == 0x7FFFFFFF {
+			out = append(out, i)
+		}
+	}
+	return out
+}
+
+func powMod(a, e, m uint64) uint64 {
+	r := uint64(1)
+	a %= m
+	for ; e > 0; e >>= 1 {
+		if e&1 == 1 {
+			r = r * a % m
+		}
+		a = a * a % m
+	}
+	return r
+}
+
+// ZucSolveInitZero looks for the values of key octet r-1 and IV octet r-1 that make the feedback sum of
+// initialisation round r (1 <= r <= 4) a multiple of 2^31-1, all other octets as given. Cell r-1 enters the
+// rounds before r nowhere, so the sum is linear in it: (1+2^8)·s ≡ -T (mod 2^31-1) has one solution s, and
+// the inputs exist iff s has the shape key octet ‖ 15-bit constant ‖ IV octet (one try in 2^15).
+func ZucSolveInitZero(k, iv []byte, r int) (kb, ivb byte, ok bool) {
+	if r < 1 || r > 4 {
+		return 0, 0, false
+	}
+	const p = uint64(0x7FFFFFFF)
+	z := &Zuc{}
+	for i := 0; i < 16; i++ {
+		z.S[i] = uint32(k[i])<<23 | ZucD[i]<<8 | uint32(iv[i])
+	}
+	for j := 1; j < r; j++ {
+		z.br()
+		w := z.f()
+		z.lfsr(w>>1, true)
+	}
+	z.br()
+	w := z.f()
+	t := add31(rot31(z.S[4], 20), rot31(z.S[10], 21))
+	t = add31(t, rot31(z.S[13], 17))
+	t = add31(t, rot31(z.S[15], 15))
+	t = add31(t, w>>1)
+	need := (p - uint64(t)%p) % p
+	s := need * powMod(257, p-2, p) % p
+	for _, cand := range []uint64{s, s + p} {
+		if cand > p || cand == 0 && s != 0 {
+			continue
+		}
+		c := uint32(cand)
+		if c>>8&0x7FFF == ZucD[r-1] {
+			return byte(c >> 23), byte(c), true
+		}
+	}
+	return 0, 0, false
+}
+
+// EEA3IV / EIA3IV: the initialisation vectors of 128-EEA3 and 128-EIA3.
+func EEA3IV(count uint32, bearer, dir byte) []byte {
+	iv := make([]byte, 16)
+	binary.BigEndian.PutUint32(iv, count)
+	iv[4] = bearer<<3 | dir<<2
+	copy(iv[8:], iv[:8])
+	return iv
+}
+
+func EIA3IV(count uint32, bearer, dir byte) []byte {
+	iv := make([]byte, 16)
+	binary.BigEndian.PutUint32(iv, count)
+	iv[4] = bearer << 3
+	iv[8] = iv[0] ^ dir<<7
+	copy(iv[9:14], iv[1:6])
+	iv[14] = iv[6] ^ dir<<7
+	iv[15] = iv[7]
+	return iv
+}
